@@ -455,13 +455,41 @@ def rule_capture_snapshot(ctx) -> None:
                 key = f"{fn.qual}/captured-record-is-a-snapshot"
                 if ok:
                     ctx.holds("C10.STAGE", key, fn.loc(x), f"the record handed to the capture buffer is a deep copy taken at the call (`{src(x.args[1])[:40]}`)")
-                elif not callers and mn == LM:
-                    ctx.info("C10.STAGE", key, fn.loc(x), f"{fn.name} hands its argument to the buffer uncopied, but nothing in the program calls it")
                 else:
                     ctx.violation("C10.STAGE", key, fn.loc(x),
                                   f"`{src(x.args[1])[:40]}` - the caller's own dict, or a shallow copy whose nested values stay aliased - is stored in the per-turn capture buffer and serialised only at commit: an update made to it "
                                   "later in the compute phase rewrites a line that the sequential loop has already written, so the batch driver's logs differ from the sequential ones")
     ctx.floor("C10.STAGE", "capture sites (buffer.write on the active mux)", n_sites, 2)
+    # the copy itself can fail (copy.deepcopy recurses: ~500 nesting levels, json manages ~1000): the writer's answer to a failed
+    # capture is to write the record through at once - ahead of the records still buffered, and during a read-only compute
+    # phase.  So where the capture-aware writer copies with deepcopy, a failure of that copy has a second, JSON-level attempt
+    # before the write-through fallback is reached.
+    aj = ctx.func("clematis.io.log:append_jsonl")
+    acfg = ctx.cfg(aj)
+    ard = ctx.rd(aj)
+    n_cap = 0
+    for x in walk_no_defs(aj.node):
+        if not (isinstance(x, ast.Call) and isinstance(x.func, ast.Attribute) and x.func.attr in copies_inside and len(x.args) == 2):
+            continue
+        n_cap += 1
+        a = x.args[1]
+        at = (acfg.node_containing(x) or [None])[0]
+        second = False
+        if isinstance(a, ast.Name) and at is not None:
+            ds = [d for d in ard.reaching(a.id, at) if d.kind == "assign" and d.value is not None]
+            first = [d for d in ds if isinstance(d.value, ast.Call) and (dotted(d.value.func) or "").split(".")[-1] == "deepcopy"]
+            for d in ds:
+                if d in first:
+                    continue
+                hs = [st for st, part in enclosing(ctx.prog, aj, d.value) if isinstance(st, ast.Try) and part == "handler"]
+                if any(any(any(y is f.value for y in ast.walk(b)) for b in t.body) for t in hs for f in first) and _is_snapshot(ard, d.value, d.node):
+                    second = True
+            if not first:
+                second = True  # not a recursive copier at all
+        ctx.check(second, "C10.STAGE", f"{aj.qual}/capture-copy-has-a-second-attempt", aj.loc(x), "a record copy.deepcopy cannot take is copied at the JSON level before any write-through",
+                  f"`{src(x)[:60]}`: the only capture attempt is copy.deepcopy - a record nested deeper than its recursion allows (but fine for json.dumps) raises, the handler writes it through at "
+                  "once, and it lands on disk before the records buffered earlier (per-file order differs from the sequential loop; a read-only compute phase writes)")
+    ctx.floor("C10.STAGE", "capture calls in append_jsonl", n_cap, 1)
 
 
 def rule_retry_admitted(ctx) -> None:
